@@ -547,7 +547,7 @@ fn graph_case(item: u64, rng: &mut Rng, acc: &mut Acc, which: Which, quick: bool
             }
         }
     }
-    if item < 2 {
+    if acc.samples.is_empty() {
         acc.sample(json!({"config": su.describe(), "loops": su.loops, "sectors": orders.len()}));
     }
 }
